@@ -359,3 +359,16 @@ Proof.
     rewrite (frun_gated _ _ h Hww Hh (leb_parts_room _ _ h h Hcw (incl_refl _))).
     apply spec_analytic. exact Hw.
 Qed.
+
+(* the generic statement with the cap hypothesis of partition_isolation *)
+Theorem engine_gated :
+  forall (St Out : Type) (init : St) (apply : St -> arow -> St * Out) (dflt : Out)
+         (gate : arow -> bool) (pkey : arow -> bytes) (cap : nat) (h : list arow),
+  length (nodup bytes_dec (ckeys gate pkey h)) <= cap ->
+  snd (an_eng_run St Out init apply dflt gate pkey true cap (an_eng0 _ _) h) =
+  map_prefix (gspec St Out init apply dflt gate pkey) h.
+Proof.
+  intros St Out init apply dflt gate pkey cap h Hcap. unfold map_prefix. apply gated_part.
+  - split; [constructor|]. split; intros k; reflexivity.
+  - apply room_of_nodup. exact Hcap.
+Qed.
